@@ -23,6 +23,8 @@ EXPLANATION = (
 )
 EXPLANATION_ADD = " Additions: (CK-zero) as in C03 for all SCMP encoders; (SIB-demux) the view's and the model's dst_port closures decide identically (same result expression, same branch conditions)."
 EXPLANATION = EXPLANATION + EXPLANATION_ADD
+EXPLANATION_ADD5 = " Round-5 additions: (FANOUT-all) Subscribers::for_each, through which ScmpErrorHandler::handle reaches the receivers, iterates the whole receiver list (no map_while/take_while/take/skip/step_by adaptor), continues with the next receiver when Weak::upgrade fails and calls the callback with the upgraded receiver on the Some edge only; (BUF-scmp) the scratch buffer of the datagram receive loops that dispatch SCMP is vec![0; N] with N a constant >= 1232 independent of the caller's buffer."
+EXPLANATION = EXPLANATION + EXPLANATION_ADD5
 RESIDUAL = ["checksum arithmetic beyond the carry folds (C03 residual)", "receiver-side delivery semantics of SCMP errors to application receivers beyond the demultiplexing key (SIB-demux)"]
 ASSUMPTIONS = ["an SCMP packet handed to ScmpScionSocket::send_to_via is application-originated, not a reply"]
 TECHNIQUE = "sibling origin-tree templates, post-dominance of the checksum write, provenance of echo fields, guarded construction"
